@@ -4,6 +4,7 @@ from p_router import C17
 from p_response import C05, C06
 from p_headers import C15
 from p_parse import C02, C03, C14
+from p_server import C07, C08, C09, C10, C18
 from p_conn import C01, C04, C11, C12, C13
 
 REGISTRY = {
@@ -12,6 +13,11 @@ REGISTRY = {
     'C05': C05,
     'C06': C06,
     'C01': C01,
+    'C07': C07,
+    'C08': C08,
+    'C09': C09,
+    'C10': C10,
+    'C18': C18,
     'C02': C02,
     'C03': C03,
     'C14': C14,
